@@ -5,6 +5,9 @@ open RaftWal
 
 structure SegSt where
   file : Bytes := []
+  hasFile : Bool := false
+  hasW : Bool := false
+  hasR : Bool := false
   w : Writer := default
   sealedInfo : SegInfo := default
   bufSize : Nat := minBufSize
@@ -31,14 +34,14 @@ def mkInfo (id base min max codec indexStart size : String) (sealed : Bool) : Se
   { id := nat! id, base := nat! base, min := nat! min, max := nat! max, codec := nat! codec,
     indexStart := nat! indexStart, sizeLimit := nat! size, sealed := sealed }
 
-def segLine (st : SegSt) (line : String) : SegSt × String :=
+def segLine0 (st : SegSt) (line : String) : SegSt × String :=
   match words line with
   | ["case", _] => ({}, "case")
   | ["bufsize", n] => ({ st with bufSize := nat! n }, "ok")
   | ["new", id, base, min, codec, size] =>
     let info := mkInfo id base min "0" codec "0" size false
-    if info.base = 0 then (st, "err other") else
-    ({ st with file := zeros info.sizeLimit, w := Writer.create info }, "ok")
+    if info.base = 0 then ({ st with hasW := false, hasFile := false }, "err other") else
+    ({ st with file := zeros info.sizeLimit, w := Writer.create info, hasW := true, hasFile := true }, "ok")
   | "app" :: fault :: ents =>
     match ents.mapM parseEntry with
     | none => (st, "bad-op")
@@ -64,7 +67,7 @@ def segLine (st : SegSt) (line : String) : SegSt × String :=
             let hi := min (lo + 8) (wrOff + wrLen)
             writeAt img lo ((after.drop lo).take (hi - lo))
           else img) before
-        ({ st with file := img, w := default }, "ok")
+        ({ st with file := img, w := default, hasW := false }, "ok")
   | ["seal", fault] =>
     let (r, w, file) := st.w.forceSeal st.file (parseFault fault)
     ({ st with w := w, file := file }, match r with | .ok is => s!"ok {is}" | .error e => "err " ++ segErr e)
@@ -90,13 +93,13 @@ def segLine (st : SegSt) (line : String) : SegSt × String :=
   | ["recover", id, base, min, codec, size] =>
     let info := mkInfo id base min "0" codec "0" size false
     (match recoverTail info st.file with
-      | .ok w => ({ st with w := w }, "ok")
-      | .error e => (st, "err " ++ segErr e))
+      | .ok (w, file) => ({ st with w := w, file := file, hasW := true }, "ok")
+      | .error e => ({ st with hasW := false }, "err " ++ segErr e))
   | ["opensealed", id, base, min, max, codec, indexStart, size] =>
     let info := mkInfo id base min max codec indexStart size true
     (match openSealed info st.file with
-      | .ok _ => ({ st with sealedInfo := info }, "ok")
-      | .error e => (st, "err " ++ segErr e))
+      | .ok _ => ({ st with sealedInfo := info, hasR := true }, "ok")
+      | .error e => ({ st with hasR := false }, "err " ++ segErr e))
   | ["sget", idx] =>
     (st, match sealedGetLog st.sealedInfo st.file (nat! idx) st.bufSize with
       | .ok b => "ok " ++ toHex b
@@ -106,5 +109,14 @@ def segLine (st : SegSt) (line : String) : SegSt × String :=
     let body := " ".intercalate (out.map (fun (i, b) => s!"{i}:{toHex b}"))
     (st, (if err then "err " else "ok ") ++ toString out.length ++ " " ++ body)
   | _ => (st, "bad-op")
+
+def segLine (st : SegSt) (line : String) : SegSt × String :=
+  match (words line).head? with
+  | some op =>
+    if ["app", "tear", "seal", "sealed", "last", "get"].contains op ∧ ¬ st.hasW then (st, "err nowriter")
+    else if op = "sget" ∧ ¬ st.hasR then (st, "err noreader")
+    else if ["file", "filehex", "mut", "trunc", "recover", "opensealed", "dump"].contains op ∧ ¬ st.hasFile then (st, "err nofile")
+    else segLine0 st line
+  | none => (st, "bad-op")
 
 end Driver
